@@ -177,8 +177,24 @@ func (z *Int) Exp(x, y *Int, m *compatiblemod.Mod) *Int {
 	return z
 }
 
+// natsOfEqualSize returns copies of a and b at the same announced length. bigmod
+// compares limb by limb over the length of the receiver: a value made from a small
+// integer (one limb) and a value reduced modulo a larger modulus would otherwise be
+// compared on their lowest limb only.
+func natsOfEqualSize(a, b *bigmod.Nat) (*bigmod.Nat, *bigmod.Nat) {
+	n := max(len(a.Bits()), len(b.Bits()), 1)
+	buf := make([]byte, n*bigmod.LimbsSizeInBytes())
+	buf[0] = 1
+	m, err := bigmod.NewModulus(buf)
+	if err != nil {
+		panic(err)
+	}
+	return bigmod.NewNat().Set(a).ExpandFor(m), bigmod.NewNat().Set(b).ExpandFor(m)
+}
+
 func (z *Int) Equal(s2 *Int) bool {
-	return z.Int.Equal(&s2.Int) == 1
+	a, b := natsOfEqualSize(&z.Int, &s2.Int)
+	return a.Equal(b) == 1
 
 }
 
@@ -281,8 +297,9 @@ func (z *Int) IsZero() bool {
 }
 
 func (z *Int) Cmp(x *Int) int {
-	greaterOrEqual := 2 * int(z.Int.CmpGeq(&x.Int))
-	equal := int(z.Int.Equal(&x.Int))
+	a, b := natsOfEqualSize(&z.Int, &x.Int)
+	greaterOrEqual := 2 * int(a.CmpGeq(b))
+	equal := int(a.Equal(b))
 	return greaterOrEqual - equal - 1
 }
 
